@@ -227,7 +227,33 @@ def x3(prog, rep):
               "a firm>soft commitment state is not rejected before the RPC", b.describe())
 
 
+def x4_drop_obsolete(prog, rep):
+    """BlockCache::drop_obsolete(latest): on *every* path the cache's next height becomes
+    max(next_height, latest) - otherwise blocks below `latest` that arrive late are accepted by
+    `insert` again and handed to the executor - and what is kept is `split_off(latest)`."""
+    o = C + "block_cache::BlockCache::<T>::drop_obsolete"
+    if o not in prog.by_owner:
+        rep.anchor_missing("X4", o)
+        return
+    b = prog.main_body(o)
+    asg = [(i, line) for i, j, p_, rv, line in b.assigns()
+           if b.place_root(p_) == "self.next_height" and rv[0] == "use"
+           and re.fullmatch(r"max\(self\.next_height,value\(latest_height\)\)|"
+                            r"max\(value\(latest_height\),self\.next_height\)", b.root(rv[1]))]
+    rep.floor("X4", len(asg), 1, "next_height := max(next_height, latest) in drop_obsolete")
+    ok = bool(asg) and all(any(b.must_pass_block(i, r) for i, _ in asg) for r in b.return_blocks())
+    rep.check(ok, "X4", "drop_obsolete:next_height-advanced-on-every-path",
+              "drop_obsolete can return without having advanced next_height to the latest "
+              "executed height: stale blocks would be accepted into the cache again", b.describe())
+    sp = [c for c in b.calls if short_name(c.callee) == "split_off" and not c.expn]
+    for c in sp:
+        a = [b.root(x) for x in c.args]
+        rep.check(a[0].startswith("self.inner") and a[1] == "value(latest_height)", "X4",
+                  "drop_obsolete:keeps-from-latest", f"split_off({a})", c.where())
+
+
 def x4(prog, rep):
+    x4_drop_obsolete(prog, rep)
     BC = C + "block_cache::BlockCache::<T>::"
     n = 0
     for o in prog.owners(r"^astria_conductor::block_cache::"):
